@@ -487,7 +487,16 @@ namespace Pistache::Http
             }
 
             if (size == 0)
+            {
+                // The last chunk is followed by the final CRLF (we do not support
+                // trailers): the message is only complete once it has arrived
+                if (cursor.remaining() < 2)
+                    return Incomplete;
+                if (!cursor.eol())
+                    throw std::runtime_error("Invalid end of chunked body");
+                cursor.advance(2);
                 return Final;
+            }
 
             message->body_.reserve(size);
             StreamCursor::Token chunkData(cursor);
